@@ -29,7 +29,9 @@ base, all single substitutions over {0-9 + - . : SPACE Z z / NUL A 0xB0 0xFF}, a
 tags, and all double substitutions over {0-9 + - . : SPACE Z z} and all triple substitutions on 4 (quick) / all 40 (thorough) bases; oracle \
 three-valued: must-accept (fixed width, all digits, Z, real date/time, second<=59, year>=1) => instant equals the calendar \
 model with pivot 50; must-reject (wrong tag/width, non-digit, no Z, month 0/13+, day 0/past month end, hour>=24, \
-minute>=60, second>=61); don't-care (year 0000, second 60); non-trivial = candidate differing from its base. validity: \
+minute>=60, second>=61); don't-care (year 0000, second 60); non-trivial = candidate differing from its base. validity-subsecond: random windows \
+and evaluation times at nanosecond resolution placed 0, +-1 ns, +-1 ms, +-0.5 s, +-0.999999999 s, +-1 s around either end \
+(Time::now() has a sub-second part), oracle = lexicographic (seconds, nanoseconds) comparison. validity: \
 complete enumeration of (not-before, not-after) x now and x second window over a boundary-dense instant set (year 1, \
 1949/1950, 1970, 2038, 2049/2050, 9999 ends, neighbours at 1 s, seed-derived); oracle = integer comparison nb<=now<=na, \
 trim = (max, min) and pointwise intersection at the window edges, Validity DER round trip against the reference writer; \
@@ -648,6 +650,72 @@ fn run_validity(r: &ValRow, obs: &mut Obs) -> CheckResult {
     Ok(())
 }
 
+//------------ validity at sub-second resolution ----------------------------------
+
+/// Evaluation times (and, less often, window ends) with a sub-second part:
+/// `Time` wraps a nanosecond-resolution instant and `Time::now()` — the usual
+/// evaluation time — always has one.
+#[derive(Clone, Debug, Serialize, Deserialize)]
+pub struct SubSec {
+    pub nb: (i64, u32),
+    pub na: (i64, u32),
+    pub now: (i64, u32),
+}
+
+fn subsec_strategy(_: Tier) -> BoxedStrategy<SubSec> {
+    let ns = prop_oneof![4 => Just(0u32), 1 => Just(1u32), 1 => Just(500_000_000u32), 1 => Just(999_999_999u32), 1 => 0u32..1_000_000_000];
+    let secs = prop_oneof![
+        3 => prop::sample::select(vec![-631_152_000i64, 0, 946_684_800, 1_767_225_600, 2_524_607_999, 2_524_608_000, 4_102_444_800]),
+        1 => (TS_MIN + 2)..(TS_MAX - 2),
+    ];
+    let off = prop_oneof![
+        3 => Just((0i64, 0i64)),
+        2 => Just((0i64, 1i64)), 2 => Just((0i64, -1i64)),
+        1 => Just((0i64, 1_000_000i64)), 1 => Just((0i64, -1_000_000i64)),
+        2 => Just((0i64, 500_000_000i64)), 2 => Just((0i64, -500_000_000i64)),
+        2 => Just((0i64, 999_999_999i64)), 2 => Just((0i64, -999_999_999i64)),
+        1 => Just((1i64, 0i64)), 1 => Just((-1i64, 0i64)),
+        1 => (-100_000i64..100_000, 0i64..1_000_000_000),
+    ];
+    (secs.clone(), ns.clone(), 0i64..200_000_000, ns, any::<bool>(), off, prop::bool::weighted(0.1))
+        .prop_map(|(nb, nb_ns, len, na_ns, at_end, (ds, dns), inverted)| {
+            let na = (nb + len).min(TS_MAX - 2);
+            let (mut nb, mut na) = ((nb, nb_ns), (na, na_ns));
+            if inverted {
+                std::mem::swap(&mut nb, &mut na);
+            }
+            let edge = if at_end { na } else { nb };
+            // edge + offset in nanoseconds, normalised
+            let total = edge.1 as i64 + dns;
+            let now = (edge.0 + ds + total.div_euclid(1_000_000_000), total.rem_euclid(1_000_000_000) as u32);
+            SubSec { nb, na, now }
+        })
+        .boxed()
+}
+
+fn lib_time_ns(t: (i64, u32)) -> Result<Time, Fail> {
+    Utc.timestamp_opt(t.0, t.1).single().map(Time::new).ok_or_else(|| Fail::new(format!("chrono cannot represent {:?}", t)))
+}
+
+fn run_subsec(c: &SubSec, obs: &mut Obs) -> CheckResult {
+    let (tnb, tna, tnow) = (lib_time_ns(c.nb)?, lib_time_ns(c.na)?, lib_time_ns(c.now)?);
+    let v = Validity::new(tnb, tna);
+    let exp = c.nb <= c.now && c.now <= c.na; // lexicographic on (seconds, nanoseconds)
+    let got = v.verify_at(tnow).is_ok();
+    let sub = c.now.1 != 0 || c.nb.1 != 0 || c.na.1 != 0;
+    let near = (c.now.0 - c.nb.0).abs() <= 1 || (c.now.0 - c.na.0).abs() <= 1;
+    obs.nontrivial_if(sub && near);
+    obs.label_if(sub && near, "subsecond-near-edge");
+    obs.label(if exp { "inside" } else { "outside" });
+    ensure_sig!(
+        got == exp && tnb.verify_not_before(tnow).is_ok() == (c.nb <= c.now) && tna.verify_not_after(tnow).is_ok() == (c.now <= c.na),
+        "validity-verify-at-subsecond",
+        "window [{:?}, {:?}] at {:?} (seconds, nanoseconds): verify_at ok={} (verify_not_before ok={}, verify_not_after ok={}), expected ok={}",
+        c.nb, c.na, c.now, got, tnb.verify_not_before(tnow).is_ok(), tna.verify_not_after(tnow).is_ok(), exp
+    );
+    Ok(())
+}
+
 //------------ big numbers ------------------------------------------------------
 
 /// 160-bit unsigned, five 32-bit limbs, most significant first.
@@ -1101,6 +1169,14 @@ pub fn property() -> Property {
             EnumSub { name: "seconds", count: count_seconds, make: make_seconds, run: run_seconds, exhaustive: true }.boxed(),
             EnumSub { name: "strings", count: count_strings, make: make_strings, run: run_strings, exhaustive: true }.boxed(),
             EnumSub { name: "validity", count: count_validity, make: make_validity, run: run_validity, exhaustive: true }.boxed(),
+            PropSub {
+                name: "validity-subsecond",
+                strategy: subsec_strategy,
+                cases: |t| t.pick(1_000_000, 20_000_000),
+                run: run_subsec,
+                floors: &[("subsecond-near-edge", 0.3), ("inside", 0.2), ("outside", 0.2)],
+            }
+            .boxed(),
             EnumSub { name: "serial-enum", count: count_serial_enum, make: make_serial_enum, run: run_serial_enum, exhaustive: true }.boxed(),
             PropSub {
                 name: "serial-random",
